@@ -490,6 +490,492 @@ theorem resolved_at_most_once (ops : List Op) (hnd : (partIds ops).Nodup) (i : N
     have := List.count_pos_iff.2 hm
     exact List.count_pos_iff.1 (by omega)
 
+/-! ## value, sender_intended_value, skimmed fee: the TRANSLATED per-part decisions
+
+`Generated/InboundMpp.lean` (namespace `MppGen`, regenerated by tools/gen_inbound.py on every run) holds
+the Rust text of every decision that sums or compares per-part amounts — `check_incoming_mpp_part`,
+`check_mpp_timeout`, the PaymentClaimable / PaymentClaimed amounts, `claim_payment_internal`'s expected
+amount, the part construction of `process_receive_htlcs`, the amount test of
+`create_recv_pending_htlc_info` — translated expression by expression.  The theorems of this section
+are about THOSE functions (first block), tie the model's steps to them (second block), and draw the
+consequences for all part lists with arbitrary skimmed fees / over-payments (third block). -/
+
+/-- the loop of `check_mpp_timeout` (translated body): ticks advanced on every part, the accumulator
+    grows by Σ sender_intended_value, the flag records whether some part has now waited `MPP_TIMEOUT_TICKS` -/
+theorem mpp_timeout_loop_sums_sender_intended (l : List MppGen.PartG) (acc : Nat) (to : Bool) :
+    MppGen.timeoutLoop l acc to = (l.map gTick, acc + gIntended l, to || gExpired l) := by
+  induction l generalizing acc to with
+  | nil => simp [MppGen.timeoutLoop, gIntended, gExpired]
+  | cons h t ih =>
+    simp only [MppGen.timeoutLoop, MppGen.timeoutBody, ih, gIntended, gTick, gExpired, List.map_cons, List.sum_cons,
+      List.any_cons, ge_iff_le]
+    by_cases hc : MPP_TIMEOUT_TICKS ≤ h.timer_ticks + 1
+    · simp [hc, Nat.add_assoc]
+    · simp [hc, Nat.add_assoc]
+
+/-- `check_mpp_timeout` in closed form: it returns true iff Σ SENDER_INTENDED_VALUE of the parts is below
+    `total_msat` and some part has waited `MPP_TIMEOUT_TICKS` ticks — `value` and the skimmed fee are not read -/
+theorem timeout_sums_sender_intended (htlcs : List MppGen.PartG) (total_mpp_value : Nat) :
+    MppGen.checkMppTimeout htlcs total_mpp_value =
+      (htlcs.map gTick, decide (gIntended htlcs < total_mpp_value) && gExpired htlcs) := by
+  simp only [MppGen.checkMppTimeout, mpp_timeout_loop_sums_sender_intended, MppGen.timeoutDone, Nat.zero_add, Bool.false_or, ge_iff_le]
+  by_cases hc : total_mpp_value ≤ gIntended htlcs
+  · simp [hc, Nat.not_lt.2 hc]
+  · simp [hc, Nat.lt_of_not_le hc]
+
+/-- the loop of `check_incoming_mpp_part` with its early `break` (translated body): below `MAX_VALUE_MSAT` it is
+    the new part's sender_intended_value plus Σ sender_intended_value of the held parts -/
+theorem mpp_completion_loop_sums_sender_intended (l : List MppGen.PartG) (acc : Nat) :
+    (MppGen.incomingLoop l acc ≥ MAX_VALUE_MSAT ↔ acc + gIntended l ≥ MAX_VALUE_MSAT) ∧
+    (MppGen.incomingLoop l acc < MAX_VALUE_MSAT → MppGen.incomingLoop l acc = acc + gIntended l) := by
+  induction l generalizing acc with
+  | nil => simp [MppGen.incomingLoop, gIntended]
+  | cons h t ih =>
+    simp only [MppGen.incomingLoop, MppGen.incomingBody, MppGen.incomingBreak, gIntended, List.map_cons, List.sum_cons,
+      ge_iff_le, decide_eq_true_eq]
+    split
+    · rename_i hb
+      constructor
+      · constructor <;> intro _ <;> omega
+      · intro h2; omega
+    · rename_i hb
+      obtain ⟨i1, i2⟩ := ih (acc + h.sender_intended_value)
+      simp only [gIntended, ge_iff_le] at i1 i2
+      exact ⟨⟨fun hx => by have := i1.1 hx; omega, fun hx => i1.2 (by omega)⟩, fun h2 => by rw [i2 h2]; omega⟩
+
+/-- `check_incoming_mpp_part` in closed form (`incomingSpec`): reject / complete / hold are decided by
+    Σ SENDER_INTENDED_VALUE against `MAX_VALUE_MSAT` and `total_msat`; on completion every part is marked with Σ VALUE -/
+theorem completion_sums_sender_intended (set : List MppGen.PartG) (new_htlc : MppGen.PartG) (total_mpp_value : Nat) :
+    MppGen.checkIncomingMppPart set new_htlc total_mpp_value =
+      match incomingSpec set new_htlc total_mpp_value with
+      | .reject => (.reject, set)
+      | .complete => (.complete, (set ++ [new_htlc]).map fun h => { h with total_value_received := some (gValue (set ++ [new_htlc])) })
+      | .hold => (.hold, set ++ [new_htlc]) := by
+  have hl := mpp_completion_loop_sums_sender_intended set (MppGen.incomingInit new_htlc)
+  simp only [MppGen.incomingInit] at hl
+  have hv : MppGen.incomingVerdict (MppGen.incomingLoop set (MppGen.incomingInit new_htlc)) new_htlc total_mpp_value =
+      incomingSpec set new_htlc total_mpp_value := by
+    simp only [MppGen.incomingVerdict, incomingSpec, MppGen.incomingInit, ge_iff_le, decide_eq_true_eq]
+    by_cases hmax : MAX_VALUE_MSAT ≤ MppGen.incomingLoop set new_htlc.sender_intended_value
+    · have := hl.1.1 hmax
+      rw [if_pos hmax, if_pos (by omega)]
+    · have he := hl.2 (by omega)
+      have e1 : new_htlc.sender_intended_value + gIntended set - new_htlc.sender_intended_value = gIntended set := by omega
+      have e2 : new_htlc.sender_intended_value + gIntended set = gIntended set + new_htlc.sender_intended_value := by omega
+      have hm2 : ¬ MAX_VALUE_MSAT ≤ gIntended set + new_htlc.sender_intended_value := by omega
+      rw [if_neg hmax, he, e1, e2, if_neg hm2]
+  simp only [MppGen.checkIncomingMppPart, hv]
+  cases incomingSpec set new_htlc total_mpp_value <;> simp [MppGen.completeAmount, gValue]
+
+/-- timer ticks do not change Σ sender_intended_value -/
+theorem gIntended_tickedN (total : Nat) (n : Nat) (l : List MppGen.PartG) : gIntended (tickedN total n l) = gIntended l := by
+  induction n generalizing l with
+  | zero => rfl
+  | succ n ih => simp only [tickedN, ih, timeout_sums_sender_intended, gIntended_map_tick]
+
+/-- COMPLETION AND TIMEOUT ARE DECIDED ON THE SAME QUANTITY (translated code, all part lists, all
+    values / skimmed fees): a set that `check_incoming_mpp_part` declared complete — the one shown to
+    the user in PaymentClaimable — is never reported as timed out by `check_mpp_timeout`, after any
+    number of timer ticks. -/
+
+theorem claimable_never_mpp_timed_out (set : List MppGen.PartG) (new_htlc : MppGen.PartG) (total_mpp_value : Nat)
+    (h : (MppGen.checkIncomingMppPart set new_htlc total_mpp_value).1 = .complete) (n : Nat) :
+    (MppGen.checkMppTimeout (tickedN total_mpp_value n (MppGen.checkIncomingMppPart set new_htlc total_mpp_value).2)
+      total_mpp_value).2 = false := by
+  rw [completion_sums_sender_intended] at h ⊢
+  rw [timeout_sums_sender_intended]
+  simp only [gIntended_tickedN]
+  cases hs : incomingSpec set new_htlc total_mpp_value <;> rw [hs] at h <;> simp only [reduceCtorEq] at h
+  have hc := (incomingSpec_complete set new_htlc total_mpp_value).1 hs
+  simp only [gIntended_setRecv, gIntended_append, Bool.and_eq_false_imp, decide_eq_true_eq]
+  intro hlt
+  simp only [gIntended, List.map_cons, List.map_nil, List.sum_cons, List.sum_nil, Nat.add_zero] at hlt hc
+  omega
+
+/-- `n` calls of `check_mpp_timeout` advance every part's `timer_ticks` by `n` -/
+theorem timer_ticks_tickedN (total : Nat) (n : Nat) (l : List MppGen.PartG) :
+    (tickedN total n l).map (·.timer_ticks) = l.map (fun h => h.timer_ticks + n) := by
+  induction n generalizing l with
+  | zero => simp [tickedN]
+  | succ n ih =>
+    simp only [tickedN, ih, timeout_sums_sender_intended, List.map_map, Function.comp_def, gTick]
+    congr 1; funext h; omega
+
+/-- … and an INCOMPLETE set (Σ sender_intended_value below total_msat) is reported as timed out by the
+    `MPP_TIMEOUT_TICKS`-th tick at the latest (and by every later one). -/
+
+theorem incomplete_mpp_times_out (htlcs : List MppGen.PartG) (total_mpp_value : Nat) (hne : htlcs ≠ [])
+    (hlt : gIntended htlcs < total_mpp_value) (n : Nat) (hn : MPP_TIMEOUT_TICKS ≤ n + 1) :
+    (MppGen.checkMppTimeout (tickedN total_mpp_value n htlcs) total_mpp_value).2 = true := by
+  rw [timeout_sums_sender_intended]
+  simp only [gIntended_tickedN, hlt, decide_true, Bool.true_and, gExpired]
+  have ht := timer_ticks_tickedN total_mpp_value n htlcs
+  cases htlcs with
+  | nil => exact absurd rfl hne
+  | cons h t =>
+    cases hl : tickedN total_mpp_value n (h :: t) with
+    | nil => rw [hl] at ht; simp at ht
+    | cons h' t' =>
+      rw [hl] at ht
+      simp only [List.map_cons, List.cons.injEq] at ht
+      simp only [List.any_cons, Bool.or_eq_true, decide_eq_true_eq]
+      left; omega
+
+/-! ### the model's steps ARE the translated functions -/
+
+/-- `timer_tick_occurred` on one payment hash: the model's `tick` step is `check_mpp_timeout` as
+    translated from the Rust source (ticks advanced on every part; when it returns true every part
+    is failed and the entry removed). -/
+
+theorem tick_is_check_mpp_timeout (s : Mpp) :
+    (MppGen.checkMppTimeout (s.parts.map Part.g) s.total).1 =
+      (s.parts.map fun q => { q with ticks := q.ticks + 1 }).map Part.g ∧
+    step s .tick =
+      if s.parts.isEmpty then (s, [])
+      else if (MppGen.checkMppTimeout (s.parts.map Part.g) s.total).2 then
+        ({ s with parts := [] }, s.parts.map fun q => Out.failPart q.id)
+      else ({ s with parts := s.parts.map fun q => { q with ticks := q.ticks + 1 } }, []) := by
+  rw [timeout_sums_sender_intended, gIntended_g, gExpired_g, gTick_g]
+  refine ⟨rfl, ?_⟩
+  simp only [step, stepTick, sumIntended_tick, map_tick_ids, List.any_map, Function.comp_def, ge_iff_le]
+  split
+  · rfl
+  · by_cases hc : s.total ≤ sumIntended s.parts
+    · simp [hc, Nat.not_lt.2 hc]
+    · simp only [hc, ↓reduceIte, Nat.lt_of_not_le hc, decide_true, Bool.true_and]
+
+/-- `handle_claimable_htlc` for a part that may join the payment (no claim pending; same purpose /
+    secret / metadata tag, `total_msat` and even-TLV flag as the first part — the `check_merge`
+    stage): the model's `part` step is `check_incoming_mpp_part` as translated — same verdict, same
+    resulting set (up to the final sort), and the event reports the translated `amount_msat`
+    (Σ value) and `counterparty_skimmed_fee_msat` (Σ skimmed fee) of that set. -/
+
+theorem part_is_check_incoming_mpp_part (s : Mpp) (p : Part) (hcl : s.claiming = false)
+    (hm : s.parts ≠ [] → p.tag = s.tag ∧ p.total = s.total ∧ p.evenTlv = s.evenTlv) :
+    ∀ r, r = MppGen.checkIncomingMppPart (s.parts.map Part.g) p.g (if s.parts.isEmpty then p.total else s.total) →
+    (r.1 = .reject → stepPart s p = (s, [.failPart p.id])) ∧
+    (r.1 = .complete → ((stepPart s p).1.parts.map Part.g).Perm r.2 ∧
+        ∃ d, (stepPart s p).2 = [.claimable (MppGen.eventAmount r.2) (MppGen.eventSkim r.2) d]) ∧
+    (r.1 = .hold → (stepPart s p).1.parts.map Part.g = r.2 ∧ (stepPart s p).2 = []) := by
+  intro r hr
+  obtain ⟨total, tag, ev, hfirst, hnot, heq⟩ := stepPart_normal s p
+  have htot : (if s.parts.isEmpty then p.total else s.total) = total := by
+    cases hs : s.parts with
+    | nil => simp [(hfirst hs).1]
+    | cons q qs => simp [(hnot (by rw [hs]; exact List.cons_ne_nil _ _)).1]
+  have hfields : ¬ (p.tag ≠ tag ∨ p.total ≠ total ∨ p.evenTlv ≠ ev) := by
+    cases hs : s.parts with
+    | nil => obtain ⟨e1, e2, e3⟩ := hfirst hs; simp [e1, e2, e3]
+    | cons q qs =>
+      have hne : s.parts ≠ [] := by rw [hs]; exact List.cons_ne_nil _ _
+      obtain ⟨e1, e2, e3⟩ := hnot hne
+      obtain ⟨f1, f2, f3⟩ := hm hne
+      simp [e1, e2, e3, f1, f2, f3]
+  rw [htot, completion_sums_sender_intended] at hr
+  have hacc := accIntended_spec s.parts p.intended
+  have hgi : gIntended (s.parts.map Part.g) = sumIntended s.parts := gIntended_g _
+  have hpi : p.g.sender_intended_value = p.intended := rfl
+  rw [heq]
+  simp only [hcl, Bool.false_eq_true, ↓reduceIte, hfields]
+  cases hv : incomingSpec (s.parts.map Part.g) p.g total with
+  | reject =>
+    rw [hv] at hr
+    subst hr
+    refine ⟨fun _ => ?_, fun h => by simp at h, fun h => by simp at h⟩
+    have hc := (incomingSpec_reject _ _ _).1 hv
+    rw [hgi, hpi] at hc
+    by_cases hmax : accIntended p.intended s.parts ≥ MAX_VALUE_MSAT
+    · rw [if_pos hmax]
+    · have hsum := hacc.2 (by omega)
+      rw [if_neg hmax, if_pos (by omega)]
+  | complete =>
+    rw [hv] at hr
+    subst hr
+    have hc := (incomingSpec_complete _ _ _).1 hv
+    rw [hgi, hpi] at hc
+    have hmax : ¬ accIntended p.intended s.parts ≥ MAX_VALUE_MSAT := by rw [hacc.1]; omega
+    have hsum := hacc.2 (by omega)
+    refine ⟨fun h => by simp at h, fun _ => ?_, fun h => by simp at h⟩
+    rw [if_neg hmax, if_neg (by omega), if_pos (by omega)]
+    simp only
+    constructor
+    · have hp := (sortParts_perm ((s.parts ++ [p]).map fun q => { q with totalRecv := some (sumValue (s.parts ++ [p])) })).map Part.g
+      refine hp.trans ?_
+      have : gValue (s.parts.map Part.g ++ [p.g]) = sumValue (s.parts ++ [p]) := by
+        rw [← gValue_g]; simp
+      rw [this]
+      simp [Part.g, List.map_map, Function.comp_def]
+    · have e1 : MppGen.eventAmount (List.map (fun h => { h with total_value_received := some (gValue (s.parts.map Part.g ++ [p.g])) })
+          (s.parts.map Part.g ++ [p.g])) = sumValue (s.parts ++ [p]) := by
+        rw [← gValue_g]; simp [MppGen.eventAmount, gValue, List.map_map, Function.comp_def]
+      have e2 : MppGen.eventSkim (List.map (fun h => { h with total_value_received := some (gValue (s.parts.map Part.g ++ [p.g])) })
+          (s.parts.map Part.g ++ [p.g])) = sumSkim (s.parts ++ [p]) := by
+        rw [← gSkim_g]; simp [MppGen.eventSkim, gSkim, List.map_map, Function.comp_def]
+      rw [e1, e2]
+      exact ⟨_, rfl⟩
+  | hold =>
+    rw [hv] at hr
+    subst hr
+    have hc := (incomingSpec_hold _ _ _).1 hv
+    rw [hgi, hpi] at hc
+    have hmax : ¬ accIntended p.intended s.parts ≥ MAX_VALUE_MSAT := by rw [hacc.1]; omega
+    have hsum := hacc.2 (by omega)
+    refine ⟨fun h => by simp at h, fun h => by simp at h, fun _ => ?_⟩
+    rw [if_neg hmax, if_neg (by omega), if_neg (by omega)]
+    simp
+
+/-- the model's claim loop is the translated loop of `claim_payment_internal` -/
+theorem claimLoop_translated (l : List Part) (e : Option Nat) (a : Nat) :
+    InboundPay.claimLoop l e a = MppGen.claimLoop (l.map Part.g) e a := by
+  induction l generalizing e a with
+  | nil => rfl
+  | cons p ps ih =>
+    simp only [InboundPay.claimLoop, List.map_cons, MppGen.claimLoop, MppGen.claimMismatch, MppGen.claimBody, ih]
+    have : (e != p.totalRecv) = decide (e ≠ p.g.total_value_received) := by
+      simp only [Part.g, bne, ne_eq]; congr 1
+      cases h : decide (e = p.totalRecv) <;> simp_all
+    rw [this]
+    rfl
+
+/-- a claim loop that ends with `valid_mpp = true` has added up Σ VALUE of all parts -/
+theorem gClaimLoop_valid (l : List MppGen.PartG) (e : Option Nat) (a : Nat) (e' : Option Nat) (a' : Nat)
+    (h : MppGen.claimLoop l e a = (e', a', true)) : a' = a + gValue l := by
+  induction l generalizing e a with
+  | nil => simp only [MppGen.claimLoop, Prod.mk.injEq, and_true] at h; simp [gValue, h.2]
+  | cons p ps ih =>
+    simp only [MppGen.claimLoop] at h
+    split at h
+    · simp at h
+    · have := ih _ _ h
+      simp only [MppGen.claimBody] at this
+      simp only [gValue, List.map_cons, List.sum_cons] at this ⊢
+      omega
+
+/-- `claim_funds` / `claim_funds_with_known_custom_tlvs` on a held set that is not refused for its
+    even TLVs: the model's `claim` step is `claim_payment_internal` as translated — the same loop over
+    the parts (`expected_amt_msat` = the amount announced, `claimable_amt_msat` = Σ value of what is
+    still there), the same two early returns, and PaymentClaimed reports the translated
+    `ClaimingPayment::amount_msat`, the per-HTLC skimmed fees and the onion total. -/
+
+theorem claim_is_claim_payment_internal (s : Mpp) (known : Bool) (hne : s.parts ≠ [])
+    (hk : known = true ∨ s.evenTlv = false) :
+    ∀ r, r = MppGen.claimLoop (s.parts.map Part.g) none 0 →
+    step s (.claim known) =
+      if MppGen.claimNothing (s.parts.map Part.g) r.1 then ({ s with parts := [] }, if r.2.2 then [] else [.inconsistent])
+      else if MppGen.claimShort r.2.1 r.1 then ({ s with parts := [] }, if r.2.2 then [] else [.inconsistent])
+      else if r.2.2 then
+        ({ s with parts := [], claiming := true },
+          s.parts.map (fun q => Out.fulfilPart q.id) ++
+            [.claimed (MppGen.claimingAmount (s.parts.map Part.g))
+              ((s.parts.map Part.g).map MppGen.claimedHtlcSkim).sum s.total])
+      else ({ s with parts := [] }, .inconsistent :: s.parts.map (fun q => Out.failPart q.id)) := by
+  intro r hr
+  have hemp : s.parts.isEmpty = false := by cases hs : s.parts <;> simp_all
+  have hemp2 : (s.parts.map Part.g).isEmpty = false := by cases hs : s.parts <;> simp_all
+  have htlv : (!known && s.evenTlv) = false := by rcases hk with rfl | hk <;> simp [*]
+  have hskim : ((s.parts.map Part.g).map MppGen.claimedHtlcSkim).sum = sumSkim s.parts := by
+    simp [MppGen.claimedHtlcSkim, sumSkim, Part.g, List.map_map, Function.comp_def]
+  simp only [step, stepClaim, hemp, htlv, Bool.false_eq_true, ↓reduceIte, claimLoop_translated, ← hr,
+    MppGen.claimNothing, MppGen.claimShort, hemp2, Bool.false_or, hskim]
+  rcases hrr : r with ⟨exp, amt, valid⟩
+  cases exp with
+  | none => cases valid <;> simp
+  | some e =>
+    simp only [Option.isNone_some, Bool.false_eq_true, ↓reduceIte, Option.getD_some, ne_eq, decide_not, Bool.not_eq_eq_eq_not,
+      Bool.not_true, decide_eq_false_iff_not, ite_not]
+    by_cases hae : amt = e
+    · subst hae
+      cases valid with
+      | false => simp
+      | true =>
+        have := gClaimLoop_valid _ _ _ _ _ (hr.symm.trans hrr)
+        simp only [Nat.zero_add] at this
+        simp [MppGen.claimingAmount, this, gValue]
+    · cases valid <;> simp [hae]
+
+/-- how `process_receive_htlcs` fills in a part: `value` is the amount of the update_add_htlc,
+    `sender_intended_value` the onion's amt_to_forward, the skimmed fee the message's TLV — the
+    model's `part` op builds exactly the translated `ClaimableHTLC`. -/
+
+theorem part_fields_translated (id value intended : Nat) (skim : Option Nat) (total cltv tag : Nat) (ev : Bool) :
+    ({ id, value, intended, skim, cltv, ticks := 0, totalRecv := none, total, tag, evenTlv := ev } : Part).g =
+      MppGen.recvPart (MppGen.recvValue (some value) intended) intended cltv skim := rfl
+
+/-! ### consequences for the accumulator (ALL part lists, arbitrary skimmed fees and over-payments) -/
+
+/-- A payment that was reported claimable is never timed out by `timer_tick_occurred`: after ANY
+    number of timer ticks nothing was failed, the announced set is still held, and the claim
+    releases the preimage on every part and reports the announced amount — whatever the parts'
+    values and skimmed fees are (no hypothesis relates `value` to `sender_intended_value`). -/
+
+theorem claimable_survives_timer_ticks (s : Mpp) (hs : Reachable s) (op : Op) (a k d : Nat)
+    (h : Out.claimable a k d ∈ (step s op).2) (n : Nat) (known : Bool)
+    (hk : known = true ∨ (step s op).1.evenTlv = false) :
+    (run (step s op).1 (List.replicate n .tick)).2 = [] ∧
+    ids (run (step s op).1 (List.replicate n .tick)).1 = ids (step s op).1 ∧
+    (step (run (step s op).1 (List.replicate n .tick)).1 (.claim known)).2 =
+      (ids (step s op).1).map Out.fulfilPart ++ [.claimed a k (step s op).1.total] := by
+  have hq : ∀ o ∈ List.replicate n Op.tick, Quiet d o := by
+    intro o ho; rw [(List.mem_replicate.1 ho).2]; trivial
+  obtain ⟨g1, g2, g3, _⟩ := claim_before_deadline_total s hs op a k d h _ hq known
+  refine ⟨?_, g2, g3 hk⟩
+  cases hout : (run (step s op).1 (List.replicate n Op.tick)).2 with
+  | nil => rfl
+  | cons o os =>
+    obtain ⟨i, _, hi⟩ := g1 o (by rw [hout]; exact List.mem_cons_self ..)
+    rw [partIds_ticks] at hi
+    cases hi
+
+/-- induction behind `incomplete_failed_after_timeout_ticks` -/
+theorem incomplete_failed_aux (n : Nat) : ∀ s : Mpp, s.parts ≠ [] → sumIntended s.parts < s.total →
+    (∃ p ∈ s.parts, MPP_TIMEOUT_TICKS ≤ p.ticks + (n + 1)) →
+    (run s (List.replicate (n + 1) .tick)).2 = s.parts.map (fun q => Out.failPart q.id) ∧
+    (run s (List.replicate (n + 1) .tick)).1.parts = [] := by
+  induction n with
+  | zero =>
+    intro s hne hlt hto
+    obtain ⟨h1, h2⟩ := (timeout_fails_all s).1 hne hlt hto
+    simp only [List.replicate_succ, List.replicate_zero, run, List.append_nil]
+    exact ⟨h1, h2⟩
+  | succ n ih =>
+    intro s hne hlt hto
+    rw [show List.replicate (n + 1 + 1) Op.tick = Op.tick :: List.replicate (n + 1) Op.tick from rfl]
+    simp only [run]
+    rcases stepTick_outs s with ⟨_, h2⟩ | ⟨h1, h2, _⟩
+    · have hw : ∀ p ∈ s.parts, p.ticks + 1 < MPP_TIMEOUT_TICKS := by
+        rcases h2 with h2 | h2 | h2
+        · exact absurd h2 hne
+        · omega
+        · exact h2
+      have e : step s .tick = ({ s with parts := s.parts.map fun q => { q with ticks := q.ticks + 1 } }, []) := stepTick_wait s hne hlt hw
+      rw [e]
+      obtain ⟨p, hp, hp2⟩ := hto
+      have := ih { s with parts := s.parts.map fun q => { q with ticks := q.ticks + 1 } } (by simpa using hne)
+        (by simpa only [sumIntended_tick] using hlt)
+        ⟨{ p with ticks := p.ticks + 1 }, List.mem_map.2 ⟨p, hp, rfl⟩, by simp only; omega⟩
+      simp only [List.nil_append]
+      rw [map_tick_ids] at this
+      exact this
+    · have e : step s .tick = stepTick s := rfl
+      rw [e, run_ticks_empty _ h2, List.append_nil]
+      exact ⟨h1, h2⟩
+
+/-- An INCOMPLETE set (Σ sender_intended_value below total_msat) that receives no further part is
+    failed back — every part of it — by the `MPP_TIMEOUT_TICKS`-th timer tick at the latest, and the
+    entry is gone; stated for the generated constant whatever its value. -/
+
+theorem incomplete_failed_after_timeout_ticks (s : Mpp) (hne : s.parts ≠ []) (hlt : sumIntended s.parts < s.total)
+    (n : Nat) (hn : MPP_TIMEOUT_TICKS ≤ n + 1) :
+    (run s (List.replicate (n + 1) .tick)).2 = s.parts.map (fun q => Out.failPart q.id) ∧
+    (run s (List.replicate (n + 1) .tick)).1.parts = [] := by
+  obtain ⟨p, hp⟩ := List.exists_mem_of_ne_nil _ hne
+  exact incomplete_failed_aux n s hne hlt ⟨p, hp, by omega⟩
+
+/-- Completion and timeout look at the SAME quantity, Σ sender_intended_value against total_msat,
+    and at no other amount: a tick leaves a held set alone iff the sender-intended amounts reach the
+    total or no part has waited long enough; a compatible part produces PaymentClaimable iff with it
+    the sender-intended amounts reach the total for the first time (below `MAX_VALUE_MSAT`). -/
+
+theorem completion_and_timeout_same_quantity (s : Mpp) (hne : s.parts ≠ []) (hcl : s.claiming = false) :
+    ((step s .tick).2 = [] ↔ (s.total ≤ sumIntended s.parts ∨ ∀ p ∈ s.parts, p.ticks + 1 < MPP_TIMEOUT_TICKS)) ∧
+    ∀ id value intended skim cltv, ∀ ev, ev = s.evenTlv →
+      ((∃ a k d, Out.claimable a k d ∈ (step s (.part id value intended skim s.total cltv s.tag ev)).2) ↔
+        (sumIntended s.parts < s.total ∧ s.total ≤ sumIntended s.parts + intended ∧
+         sumIntended s.parts + intended < MAX_VALUE_MSAT)) := by
+  constructor
+  · simp only [step]
+    constructor
+    · intro h0
+      rcases stepTick_outs s with ⟨_, h2⟩ | ⟨h1, _, _, _, _⟩
+      · rcases h2 with h2 | h2 | h2
+        · exact absurd h2 hne
+        · exact Or.inl h2
+        · exact Or.inr h2
+      · rw [h0] at h1
+        cases hs : s.parts with
+        | nil => exact absurd hs hne
+        | cons q qs => rw [hs] at h1; simp at h1
+    · intro h0
+      rcases stepTick_outs s with ⟨h1, _⟩ | ⟨_, _, _, hlt, p, hp, hp2⟩
+      · exact h1
+      · rcases h0 with h0 | h0
+        · omega
+        · have := h0 p hp; omega
+  · intro id value intended skim cltv ev hev
+    subst hev
+    simp only [step]
+    constructor
+    · rintro ⟨a, k, d, h⟩
+      obtain ⟨t, g, e, hnot, _, _, h2, _, hmax, hlt, hge, _⟩ := stepPart_claimable s _ a k d h
+      simp only at h2 hmax hlt hge
+      subst h2
+      omega
+    · rintro ⟨h1, h2, h3⟩
+      have hp := part_is_check_incoming_mpp_part s
+        { id, value, intended, skim, cltv, ticks := 0, totalRecv := none, total := s.total, tag := s.tag, evenTlv := s.evenTlv }
+        hcl (fun _ => ⟨rfl, rfl, rfl⟩) _ rfl
+      have hemp : s.parts.isEmpty = false := by cases hs : s.parts <;> simp_all
+      simp only [hemp, Bool.false_eq_true, ↓reduceIte] at hp
+      have hv : (MppGen.checkIncomingMppPart (s.parts.map Part.g)
+          ({ id, value, intended, skim, cltv, ticks := 0, totalRecv := none, total := s.total, tag := s.tag, evenTlv := s.evenTlv } : Part).g
+          s.total).1 = .complete := by
+        rw [completion_sums_sender_intended]
+        have : incomingSpec (s.parts.map Part.g)
+            ({ id, value, intended, skim, cltv, ticks := 0, totalRecv := none, total := s.total, tag := s.tag, evenTlv := s.evenTlv } : Part).g
+            s.total = .complete := by
+          rw [incomingSpec_complete, gIntended_g]; exact ⟨h2, h1, h3⟩
+        rw [this]
+      obtain ⟨_, d, hd⟩ := hp.2.1 hv
+      exact ⟨_, _, d, by rw [hd]; exact List.mem_singleton.2 rfl⟩
+
+/-- a part that passed the amount test of `create_recv_pending_htlc_info` (translated) carries at least
+    the onion amount once the skimmed fee it declares is added back (`accept_underpaying_htlcs` or not) -/
+theorem recvAmountTooLow_false (allow : Bool) (onion amt : Nat) (skim : Option Nat)
+    (h : MppGen.recvAmountTooLow allow onion amt skim = false) : onion ≤ amt + skim.getD 0 := by
+  cases allow
+  · simp [MppGen.recvAmountTooLow] at h; omega
+  · simp only [MppGen.recvAmountTooLow, Bool.not_true, Bool.false_and, Bool.true_and, Bool.false_or, satAdd64] at h
+    split at h <;> simp only [decide_eq_false_iff_not, Nat.not_lt, gt_iff_lt] at h <;> omega
+
+/-- What is reported and claimed is what ARRIVED.  For the set announced by PaymentClaimable
+    `{amount a, skimmed k}`: `a` = Σ value and `k` = Σ counterparty_skimmed_fee_msat of the held parts,
+    the sender-intended amounts reach `total_msat`; hence
+    * if every part passed the receive-side amount test of create_recv_pending_htlc_info (translated
+      `recvAmountTooLow`, with or without `accept_underpaying_htlcs`): `total_msat ≤ Σ intended ≤ a + k`
+      — the recipient is short of the invoice total by at most the skimmed fees it was told about;
+    * if every part's skimmed fee is exactly what is missing (`value + skim = sender_intended`, what
+      `forward_intercepted_htlc` produces): `a = Σ intended − k`;
+    * if no part is under-paid (`sender_intended ≤ value`, over-paying forwarders): `total_msat ≤ a`. -/
+
+theorem claimed_amount_accounts_for_skim (s : Mpp) (hs : Reachable s) (op : Op) (a k d : Nat)
+    (h : Out.claimable a k d ∈ (step s op).2) :
+    a = sumValue (step s op).1.parts ∧ k = sumSkim (step s op).1.parts ∧
+    (step s op).1.total ≤ sumIntended (step s op).1.parts ∧
+    ((∀ p ∈ (step s op).1.parts, ∃ allow, MppGen.recvAmountTooLow allow p.intended p.value p.skim = false) →
+      sumIntended (step s op).1.parts ≤ a + k ∧ (step s op).1.total ≤ a + k) ∧
+    ((∀ p ∈ (step s op).1.parts, p.value + p.skim.getD 0 = p.intended) →
+      a = sumIntended (step s op).1.parts - k ∧ a + k = sumIntended (step s op).1.parts) ∧
+    ((∀ p ∈ (step s op).1.parts, p.intended ≤ p.value) → (step s op).1.total ≤ a) := by
+  obtain ⟨ha, hk, _⟩ := claimable_amount_deadline s op a k d h
+  obtain ⟨id, value, intended, skim, total, cltv, tag, ev, hop, _, hf, hge, _, _⟩ := claimable_only_if_complete s hs op a k d h
+  have htot : (step s op).1.total = total := by
+    subst hop
+    simp only [step] at h ⊢
+    obtain ⟨t, g, e, _, _, _, h2, _, _, _, _, heq, _⟩ := stepPart_claimable s _ a k d h
+    rw [heq]; exact h2.symm
+  rw [htot]
+  generalize (step s op).1.parts = ps at *
+  have hadd : (ps.map fun p => p.value + p.skim.getD 0).sum = sumValue ps + sumSkim ps := sum_map_add ps _ _
+  refine ⟨ha, hk, hge, fun hadm => ?_, fun hex => ?_, fun hov => ?_⟩
+  · have : sumIntended ps ≤ (ps.map fun p => p.value + p.skim.getD 0).sum :=
+      sum_le_of_forall ps _ _ (fun p hp => by obtain ⟨al, hal⟩ := hadm p hp; exact recvAmountTooLow_false al _ _ _ hal)
+    omega
+  · have : (ps.map fun p => p.value + p.skim.getD 0).sum = sumIntended ps := by
+      simp only [sumIntended]; congr 1; exact List.map_congr_left hex
+    omega
+  · have : sumIntended ps ≤ sumValue ps := sum_le_of_forall ps _ _ hov
+    omega
+
 /-! ## non-vacuity: concrete instances of every hypothesis and outcome used above -/
 
 /-- a toy `PayCrypto` that satisfies `Wf` (only for non-vacuity; the driver uses the real primitives) -/
@@ -546,5 +1032,25 @@ example : (run Mpp.init [.part 1 5 5 none (MAX_VALUE_MSAT + 9) 500 1 false, .par
 -- the "should not be reachable" branch of claim_payment_internal is reachable in the model
 example : (run Mpp.init [.part 1 600 600 none 1000 500 1 false, .part 2 400 400 none 1000 480 1 false, .block 441,
       .part 3 100 100 none 1000 600 1 false, .claim false]).2 = [.claimable 1000 0 441, .failPart 2, .inconsistent] := by decide
+
+-- skimmed fees (value < sender_intended): complete on Σ intended = 1000 although only 970 arrived; three
+-- timer ticks later the set is still there and the claim reports what arrived, the skim and the onion total
+example : (run Mpp.init [.part 1 580 600 (some 20) 1000 500 1 false, .part 2 390 400 (some 10) 1000 480 1 false,
+      .tick, .tick, .tick, .claim false]).2 =
+    [.claimable 970 30 441, .fulfilPart 1, .fulfilPart 2, .claimed 970 30 1000] := by decide
+-- an incomplete skimmed set is failed by the tick; an over-paying forwarder does not complete the set early
+example : (run Mpp.init [.part 1 580 600 (some 20) 1000 500 1 false, .tick]).2 = [.failPart 1] := by decide
+example : (run Mpp.init [.part 1 1200 600 none 1000 500 1 false, .part 2 400 400 none 1000 500 1 false, .claim false]).2 =
+    [.claimable 1600 0 461, .fulfilPart 1, .fulfilPart 2, .claimed 1600 0 1000] := by decide
+-- the translated functions on the same skimmed set: complete, and not timed out by any of the next ticks;
+-- the hypotheses of `incomplete_mpp_times_out` / `claimed_amount_accounts_for_skim` are satisfiable
+example : (MppGen.checkIncomingMppPart [⟨580, 600, 0, none, 500, some 20⟩] ⟨390, 400, 0, none, 480, some 10⟩ 1000).1 = .complete ∧
+    (MppGen.checkMppTimeout (MppGen.checkIncomingMppPart [⟨580, 600, 0, none, 500, some 20⟩] ⟨390, 400, 0, none, 480, some 10⟩ 1000).2 1000).2 = false ∧
+    MppGen.eventAmount (MppGen.checkIncomingMppPart [⟨580, 600, 0, none, 500, some 20⟩] ⟨390, 400, 0, none, 480, some 10⟩ 1000).2 = 970 ∧
+    MppGen.eventSkim (MppGen.checkIncomingMppPart [⟨580, 600, 0, none, 500, some 20⟩] ⟨390, 400, 0, none, 480, some 10⟩ 1000).2 = 30 := by decide
+example : (MppGen.checkMppTimeout [⟨580, 600, 0, none, 500, some 20⟩] 1000).2 = true ∧ gIntended [⟨580, 600, 0, none, 500, some 20⟩] < 1000 := by decide
+example : MppGen.recvAmountTooLow true 600 580 (some 20) = false ∧ MppGen.recvAmountTooLow true 600 579 (some 20) = true ∧
+    MppGen.recvAmountTooLow false 600 580 (some 20) = true ∧ MppGen.recvAmountTooLow false 600 600 none = false := by decide
+example : (580 : Nat) + (some 20 : Option Nat).getD 0 = 600 := by decide
 
 end Ldk.C04
